@@ -39,6 +39,9 @@ INVENTORIES = [
     _inv((A(D('5'), 'HOOL'), None), (A(D('10'), 'HOOL'), COST)),                       # plain lot and lot at cost
     _inv((A(D('1.50'), 'USD'), None), (A(D('200'), 'JPY'), None), (A(D('-0.004'), 'EUR'), None)),
     _inv((A(D('2'), 'HOOL'), COST), (A(D('-2'), 'HOOL'), COST)),                       # a lot sold out: empty
+    # several lots of one currency whose sub-precision digits add up across a rounding boundary (GBP: 2 places)
+    _inv((A(D('1.004'), 'GBP'), None), (A(D('1.004'), 'GBP'), COST), (A(D('1.004'), 'GBP'), COST2)),
+    _inv((A(D('0.004'), 'GBP'), COST), (A(D('0.004'), 'GBP'), COST2)),
 ]
 XBT = A(D('0.12345678'), 'XBT')
 XBT_VALUES = [XBT, position.Position(XBT, None), _inv((XBT, None), (A(D('2.5'), 'XBT'), COST))]
@@ -50,10 +53,20 @@ def _dformat():
     dc.update(D('1.00'), 'USD')
     dc.update(D('1'), 'JPY')
     dc.update(D('1.000'), 'EUR')
+    dc.update(D('1.00'), 'GBP')
+    return dc.build()
+
+
+def _dformat4():
+    dc = display_context.DisplayContext()
+    dc.update(D('1.0000'), 'USD')
+    dc.update(D('1.00'), 'JPY')
+    dc.update(D('1.0'), 'EUR')
     return dc.build()
 
 
 FMT = _dformat()        # built natively at import: Decimal arithmetic is never symbolic (R4)
+FMT4 = _dformat4()      # another ledger's display context: other precisions for the same currencies
 
 
 def dformat():
@@ -146,8 +159,8 @@ def make(kind, values, nrows):
     @cond(f'C17.{kind}.{nrows}rows', quick=240, thorough=900,
           bounds=f'result of {nrows} rows: a plain int column (symbolic or NULL), a {kind} column with cells from a palette of '
                  f'{len(values)} values (NULL, zero, negative, several currencies'
-                 + (', two lots of one commodity, plain lot plus lot at cost, empty and sold-out inventories' if kind == 'inventory' else '')
-                 + '), optionally a second amount-like column; with and without a display formatter (USD 2, JPY 0, EUR 3 places; HOOL unknown)',
+                 + (', two lots of one commodity, plain lot plus lot at cost, lots whose sub-precision digits add up, empty and sold-out inventories' if kind == 'inventory' else '')
+                 + '), optionally a second amount-like column; with and without a display formatter (USD 2, JPY 0, EUR 3, GBP 2 places; HOOL unknown)',
           symbolic='plain cells, formatter presence, second column presence', enumerated='amount-like cells',
           params=params, group='C17')
     def numberify_cond(fmt, second, **kw):
@@ -201,3 +214,36 @@ def unknown_currency(k):
     if [c.name for c in odesc] != ['x (XBT)'] or orows[0][0] != want:
         return 'unknown-currency-quantized'
     return 'ok'
+
+
+@cond('C17.history.formatters', quick=120,
+      bounds='two numberify calls in one process on the same 2-row result (amount / position / inventory column with USD, JPY, EUR '
+             'values carrying more digits than either precision) with the formatters of two display contexts (USD 2 / 4, JPY 0 / 2, '
+             'EUR 3 / 1 places), in either order and with or without a formatter-less call in between: each call quantizes to the '
+             'precision of the formatter it was given',
+      symbolic='(none)', enumerated='column kind, order of the formatters, cells', params={'k': int, 'swap': bool, 'mid': bool, 'v': int})
+def history_formatters(k, swap, mid, v):
+    kind = enum_int(k, 0, 2)
+    v = enum_int(v, 0, 2)
+    swap, mid = bool(swap), bool(mid)
+
+    def run():
+        cells = [A(D('12.34567'), 'USD'), A(D('-30.7587'), 'USD'), A(D('200.555'), 'JPY'), A(D('0.98765'), 'EUR')]
+        a, b = cells[v], cells[v + 1]
+        if kind == 0:
+            dtype, values = amount.Amount, [a, b]
+        elif kind == 1:
+            dtype, values = position.Position, [position.Position(a, None), position.Position(b, COST)]
+        else:
+            dtype, values = inventory.Inventory, [_inv((a, None), (b, COST)), _inv((b, None))]
+        desc = [Column('n', int), Column('x', dtype)]
+        rows = [[1, values[0]], [2, values[1]]]
+        sequence = [FMT4, FMT] if swap else [FMT, FMT4]
+        if mid:
+            sequence.insert(1, None)
+        for fmt in sequence:
+            label = check(desc, rows, fmt)
+            if label:
+                return label + '-in-a-sequence-of-calls'
+        return 'ok'
+    return native(run)
